@@ -140,6 +140,9 @@ def corr(ck, unpack_mod, mols):
         meta.append(('pack', kind, str(m)))
         cases.append(f'(pack_size {pm} =? {len(data)})')
         meta.append(('pack_size', kind, str(m)))
+        # the declarative bit-field layout (PackSpec.layout_v2), evaluated, gives the real bytes
+        cases.append(f'list_eqb Z.eqb (bytes_of_bits (layout_v2 {pm})) {lst(list(data), zraw)}')
+        meta.append(('layout_v2', kind, str(m)))
         # the hypothesis of the round-trip theorems holds for the real molecule
         cases.append(f'pack_ok {pm}')
         meta.append(('pack_ok', kind, str(m)))
@@ -154,7 +157,98 @@ def corr(ck, unpack_mod, mols):
               log or str([meta[i] for i in failing[:5]]))
     ck.extra['correspondence_cases'] = ck.extra.get('correspondence_cases', 0) + len(cases)
     if not ok or failing:
+        # directed search: the property-level oracles (round trip, published layout, pack_len) on the disagreeing
+        # molecules and on renumbered / re-ordered variants of them, before falling back to `unchecked`
+        import random as _r
+        rng = _r.Random(ck.seed + 1)
+        bad = {(meta[i][1], meta[i][2]) for i in failing} if failing else {(k, str(m)) for k, m in mols}
+        n = 0
+        for kind, m in mols:
+            if (kind, str(m)) not in bad or n >= 60:
+                continue
+            n += 1
+            check_molecule(ck, kind, m, tag='-directed')
+            for _ in range(3):
+                try:
+                    check_molecule(ck, kind + '-renumbered', corpus.renumber(m, rng), tag='-directed')
+                except Exception:
+                    break
         ck.unchecked('correspondence Pack model vs .pyx codecs', log[-1500:], [repr(meta[i]) for i in failing[:20]])
+    return ok and not failing
+
+
+def corr_malformed(ck, unpack_mod, mols, rng):
+    """malformed inputs: every truncation class of valid packs (-> IndexError in the transpiled code and in the model)
+    and single corrupted bytes (the decoded result, IndexError or KeyError must agree; corruptions that make the C code
+    read uninitialised memory -- the transpiler's poison -- or build an element from an invalid atomic number are
+    undefined behaviour / outside the model and are only counted)"""
+    from chython import MoleculeContainer
+    cases, meta = [], []
+    picked = [(k, m) for k, m in mols if k in ('seed', 'numbers', 'chain')]
+    picked = picked[:20] if ck.tier == 'quick' else picked
+    for kind, m in picked:
+        data = bytes(m.pack(compressed=False))
+        ac = len(m)
+        cuts = sorted({0, 1, 3, 4, 5, 4 + 9 * ac - 1, 4 + 9 * ac, 4 + 9 * ac + 1, len(data) - 5, len(data) - 4, len(data) - 1} & set(range(len(data))))
+        for c in cuts:
+            try:
+                unpack_mod.unpack(data[:c])
+                exp = None
+            except IndexError:
+                exp = 'Err IndexError'
+            except Exception as e:
+                exp = None
+            ck.case(('trunc', str(m), c))
+            ck.count('malformed:truncated')
+            if exp is None:
+                ck.count('malformed:truncated-not-indexerror')
+                continue
+            cases.append(f'pyres_eqb unpacked_eqb (unpack {lst(list(data[:c]), zraw)}) ({exp})')
+            meta.append(('trunc', str(m), c))
+            pl = 'Err IndexError' if c == 0 else None
+            if c == 0:
+                cases.append(f'pyres_eqb Z.eqb (mol_pack_len {lst([], zraw)}) (Err IndexError)')
+                meta.append(('pack_len-empty', str(m), c))
+        for _ in range(12 if ck.tier == 'quick' else 60):
+            bb = bytearray(data)
+            i = rng.randrange(len(bb))
+            bb[i] = rng.randrange(256)
+            bb = bytes(bb)
+            ck.case(('corrupt', str(m), i, bb[i]))
+            hac = bb[1] << 4 | bb[2] >> 4
+            if any(not 1 <= bb[4 + 9 * j + 3] & 0x7f <= 118 for j in range(hac) if 4 + 9 * j + 3 < len(bb)):
+                ck.count('malformed:corrupt-invalid-element')     # elements[atomic_number] is outside the model
+                continue
+            try:
+                mol2, ct2, size2 = unpack_mod.unpack(bb)
+                if len(mol2._atoms) != (bb[1] << 4 | bb[2] >> 4):
+                    ck.count('malformed:corrupt-duplicate-numbers')
+                    continue
+                exp = f'Ok {unpacked_term(mol2, ct2, size2, bb)}'
+                ck.count('malformed:corrupt-decodes')
+            except (IndexError, KeyError) as e:
+                exp = f'Err {type(e).__name__}'
+                ck.count('malformed:corrupt-' + type(e).__name__)
+            except Exception as e:
+                ck.count('malformed:corrupt-undefined(' + type(e).__name__ + ')')
+                continue
+            cases.append(f'pyres_eqb unpacked_eqb (unpack {lst(list(bb), zraw)}) ({exp})')
+            meta.append(('corrupt', str(m), i, bb[i]))
+            if bb[0] not in (0, 2):
+                try:
+                    MoleculeContainer.pack_len(bb, compressed=False)
+                    e2 = None
+                except ValueError:
+                    e2 = 'Err ValueError'
+                if e2:
+                    cases.append(f'pyres_eqb Z.eqb (mol_pack_len {lst(list(bb[:6]), zraw)}) ({e2})')
+                    meta.append(('pack_len-header', str(m), i, bb[i]))
+    ok, failing, log = coqcases.run_cases('c10m', 'Pack PackSpec', cases, extra=EXTRA, shard=150)
+    ck.oblige('correspondence on malformed packs: truncations and corrupted bytes, unpack/pack_len == Coq model', ok and not failing, 'correspondence',
+              log or str([meta[i] for i in failing[:5]]))
+    ck.extra['correspondence_cases'] = ck.extra.get('correspondence_cases', 0) + len(cases)
+    if not ok or failing:
+        ck.unchecked('correspondence Pack model vs .pyx codecs on malformed packs', log[-1500:], [repr(meta[i]) for i in failing[:20]])
     return ok and not failing
 
 
@@ -217,7 +311,7 @@ def corr_f16(ck, mods, rng):
     cases, meta = [], []
     xs = [0.0, -0.0, 1.0, -1.0, 0.5, 2.0, 65504.0, 65519.99, 65520.0, 65535.9, 65536.0, 1e5, 2.0 ** -14, 2.0 ** -14 * 0.999, 2.0 ** -24, 2.0 ** -25,
           2.0 ** -25 * 0.99, 2.0 ** -26, 5e-324, 1.7976931348623157e308, 1 / 3, -1 / 3, 1023.9999, 1024.0, 0.1, 12.345]
-    n = 1500 if ck.tier == 'quick' else 20000
+    n = 800 if ck.tier == 'quick' else 20000
     for _ in range(n):
         k = rng.random()
         if k < .4:
@@ -234,7 +328,7 @@ def corr_f16(ck, mods, rng):
         meta.append(('f16_encode', x.hex(), a, c))
         ck.case(('f16e', x.hex()), nontrivial=(a, c) != (0, 0))
         ck.count('f16:zero' if (a, c) == (0, 0) else ('f16:subnormal' if (a >> 2) & 31 == 0 else 'f16:normal'))
-    pats = list(range(65536)) if ck.tier != 'quick' else sorted(set(rng.sample(range(65536), 3000)) | set(range(0, 65536, 1024)) | {0x7bff, 0x7c00, 0xfbff, 0x8000, 1, 0x3ff, 0x400})
+    pats = list(range(65536)) if ck.tier != 'quick' else sorted(set(rng.sample(range(65536), 1500)) | set(range(0, 65536, 1024)) | {0x7bff, 0x7c00, 0xfbff, 0x8000, 1, 0x3ff, 0x400})
     for pat in pats:
         a, c = pat >> 8, pat & 255
         y = up.double_from_bytes(a, c)
@@ -246,7 +340,7 @@ def corr_f16(ck, mods, rng):
 Definition dec_ok (a c : Z) (neg : bool) (M E : Z) : bool :=
   let r := f16_decode a c in Bool.eqb (fst (fst r)) neg && dy_eq (snd (fst r)) (snd r) M E.
 '''
-    ok, failing, log = coqcases.run_cases('c10f', 'F16', cases, extra=extra, shard=1000)
+    ok, failing, log = coqcases.run_cases('c10f', 'F16', cases, extra=extra, shard=400)
     ck.oblige('correspondence: double_to_float16 / double_from_bytes == Coq model (bit exact on exact dyadics)', ok and not failing, 'correspondence',
               log or str([meta[i] for i in failing[:5]]))
     ck.extra['correspondence_cases'] = ck.extra.get('correspondence_cases', 0) + len(cases)
@@ -278,30 +372,131 @@ def half_ok(x, y):
     return y == math.copysign(math.floor(abs(x) / q) * q, x)
 
 
+def half_bits(x):
+    """the 16 bits of x in the format's half float: sign, 5 bit exponent, 10 bit fraction, truncated toward zero;
+    0 for |x| >= 65536 or |x| < 2^-25 (independent of the model: exact rational arithmetic)"""
+    import math
+    from fractions import Fraction
+    if x == 0 or abs(x) >= 65536 or abs(x) < 2 ** -25:
+        return 0
+    sign = 1 if x < 0 else 0
+    q = Fraction(abs(x))
+    e = math.floor(math.log2(abs(x)))
+    while Fraction(2) ** e > q:
+        e -= 1
+    while Fraction(2) ** (e + 1) <= q:
+        e += 1
+    if e < -14:
+        frac, ef = math.floor(q / Fraction(2) ** -24), 0
+    else:
+        frac, ef = math.floor(q / Fraction(2) ** (e - 10)) - 1024, e + 15
+    assert 0 <= frac < 1024 and 0 <= ef < 31
+    return sign << 15 | ef << 10 | frac
+
+
+def layout_oracle(m):
+    """the published version 2 layout written from the docstring as ONE bit string (rebuild from scratch, independent
+    of the codecs and of the Coq model); None when the molecule is outside the documented limits"""
+    bits = []
+
+    def put(v, w):
+        v = int(v)
+        if not 0 <= v < 1 << w:
+            raise OverflowError((v, w))
+        bits.append(format(v, f'0{w}b'))
+    try:
+        put(2, 8)
+        put(len(m._atoms), 12)
+        put(sum(bd.stereo is not None for *_, bd in m.bonds()), 12)
+        for n, a in m._atoms.items():
+            ngb = len(m._bonds[n])
+            put(n, 12)
+            put(ngb, 4)
+            if a._stereo is None:
+                put(0, 4)
+            elif ngb == 2:    # allene centre
+                put(0, 2)
+                put(2 + bool(a._stereo), 2)
+            else:
+                put(2 + bool(a._stereo), 2)
+                put(0, 2)
+            put(0 if a._isotope is None else a._isotope - a.mdl_isotope + 16, 5)
+            put(a.atomic_number, 7)
+            put(half_bits(a.x), 16)
+            put(half_bits(a.y), 16)
+            put(7 if a._implicit_hydrogens is None else a._implicit_hydrogens, 3)
+            put(a._charge + 4, 4)
+            put(bool(a._is_radical), 1)
+        seen = set()
+        orders, cts = [], []
+        for n in m._atoms:
+            seen.add(n)
+            for k, bd in m._bonds[n].items():
+                put(k, 12)
+                if k not in seen:
+                    orders.append(int(bd) - 1)
+                    if bd.stereo is not None:
+                        cts.append((m._stereo_cis_trans_terminals[n], bd.stereo))
+        ob = ''.join(format(o, '03b') for o in orders)
+        bits.append(ob + '0' * (-len(ob) % 8))
+        for (tn, tm), sgn in cts:
+            put(tn, 12)
+            put(tm, 12)
+            put(0, 7)
+            put(bool(sgn), 1)
+    except OverflowError:
+        return None
+    allb = ''.join(bits)
+    assert len(allb) % 8 == 0
+    return bytes(int(allb[i:i + 8], 2) for i in range(0, len(allb), 8))
+
+
+def check_molecule(ck, kind, m, tag=''):
+    """property-level oracle on the real API for one molecule: round trip, published layout, pack_len. Returns True
+    when the molecule passes"""
+    from chython import MoleculeContainer
+    ok = True
+    for compressed in (True, False):
+        try:
+            data = m.pack(compressed=compressed)
+            u = MoleculeContainer.unpack(data, compressed=compressed)
+        except Exception as e:
+            ck.counterexample(f'roundtrip-raises:{kind}:{m}', f'pack/unpack raises {type(e).__name__}', {'smiles': str(m)}, repr(e), 'round trip', 'API round trip')
+            return False
+        ck.case(('rt' + tag, kind, str(m), tuple(m._atoms), compressed))
+        if observe(u) != observe(m):
+            ck.counterexample(f'roundtrip:{kind}:{m}:{list(m._atoms)[:3]}', 'pack -> unpack changes the molecule', {'smiles': str(m), 'numbers': list(m._atoms)},
+                              observe(u), observe(m), 'API round trip: numbers in order, attributes, neighbour order, orders, stereo',
+                              replay_py=REPLAY_PRE + f'm=smiles({str(m)!r}); u=MoleculeContainer.unpack(m.pack()); print(m, u, list(m), list(u))')
+            return False
+        if MoleculeContainer.pack_len(data, compressed=compressed) != len(m):
+            ck.counterexample(f'pack_len:{kind}:{m}', 'pack_len differs from the atom count', {'smiles': str(m)},
+                              MoleculeContainer.pack_len(data, compressed=compressed), len(m), 'atom count')
+            ok = False
+        for (n, a), (_, c) in zip(m._atoms.items(), u._atoms.items()):
+            if not (half_ok(a.x, c.x) and half_ok(a.y, c.y)):
+                ck.counterexample(f'xy:{kind}:{m}', 'coordinates not preserved to half precision', {'smiles': str(m), 'atom': n},
+                                  [c.x, c.y], [a.x, a.y], 'independent half-float truncation')
+                ok = False
+                break
+    want = layout_oracle(m)
+    if want is not None:
+        got = m.pack(compressed=False)
+        ck.case(('layout' + tag, kind, str(m), tuple(m._atoms)))
+        if bytes(got) != want:
+            i = next((j for j in range(min(len(got), len(want))) if got[j] != want[j]), min(len(got), len(want)))
+            ck.counterexample(f'layout:{kind}:{m}:{list(m._atoms)[:3]}', f'pack bytes differ from the published version 2 layout (first difference at byte {i})',
+                              {'smiles': str(m), 'numbers': list(m._atoms)}, list(got[max(0, i - 2):i + 6]), list(want[max(0, i - 2):i + 6]),
+                              'bit string written from the docstring (independent re-implementation)',
+                              replay_py=REPLAY_PRE + f'print(list(smiles({str(m)!r}).pack(compressed=False)))')
+            ok = False
+    return ok
+
+
 def search(ck, mols, rng, n_ref):
     from chython import smiles, MoleculeContainer, ReactionContainer, unpack as top_unpack
     for kind, m in mols:
-        for compressed in (True, False):
-            try:
-                data = m.pack(compressed=compressed)
-                u = MoleculeContainer.unpack(data, compressed=compressed)
-            except Exception as e:
-                ck.counterexample(f'roundtrip-raises:{kind}:{m}', f'pack/unpack raises {type(e).__name__}', {'smiles': str(m)}, repr(e), 'round trip', 'API round trip')
-                break
-            ck.case(('rt', kind, str(m), tuple(m._atoms), compressed))
-            if observe(u) != observe(m):
-                ck.counterexample(f'roundtrip:{kind}:{m}:{list(m._atoms)[:3]}', 'pack -> unpack changes the molecule', {'smiles': str(m), 'numbers': list(m._atoms)},
-                                  observe(u), observe(m), 'API round trip: numbers in order, attributes, neighbour order, orders, stereo',
-                                  replay_py=REPLAY_PRE + f'm=smiles({str(m)!r}); u=MoleculeContainer.unpack(m.pack()); print(m, u, list(m), list(u))')
-                break
-            if MoleculeContainer.pack_len(data, compressed=compressed) != len(m):
-                ck.counterexample(f'pack_len:{kind}:{m}', 'pack_len differs from the atom count', {'smiles': str(m)},
-                                  MoleculeContainer.pack_len(data, compressed=compressed), len(m), 'atom count')
-            for (n, a), (_, c) in zip(m._atoms.items(), u._atoms.items()):
-                if not (half_ok(a.x, c.x) and half_ok(a.y, c.y)):
-                    ck.counterexample(f'xy:{kind}:{m}', 'coordinates not preserved to half precision', {'smiles': str(m), 'atom': n},
-                                      [c.x, c.y], [a.x, a.y], 'independent half-float truncation')
-                    break
+        check_molecule(ck, kind, m)
     # a molecule at the format limits: 4095 atoms, pack larger than 64 KiB (offset arithmetic of the codecs)
     big = MoleculeContainer()
     N = 4095
@@ -332,6 +527,11 @@ def search(ck, mols, rng, n_ref):
         m._atoms[2]._xy.y = -x
         u = MoleculeContainer.unpack(m.pack())
         ck.case(('xy', x), nontrivial=x != 0)
+        want = layout_oracle(m)
+        if want is not None and bytes(m.pack(compressed=False)) != want:
+            ck.counterexample(f'xy-layout:{x!r}', 'coordinate bytes differ from the published half-float layout', {'x': x}, list(m.pack(compressed=False)[8:12]),
+                              list(want[8:12]), 'independent half-float bits (exact rational arithmetic)',
+                              replay_py=REPLAY_PRE + f'm=smiles("CC"); m._atoms[1]._xy.x={x!r}; print(list(m.pack(compressed=False)[8:12]))')
         if not (half_ok(x, u._atoms[1].x) and half_ok(-x, u._atoms[2].y)):
             ck.counterexample(f'xy-value:{x!r}', 'coordinate not preserved to half precision', {'x': x}, [u._atoms[1].x, u._atoms[2].y], 'half(x)',
                               'independent half-float truncation',
@@ -403,7 +603,7 @@ def run(ck):
     ck.extra['rule'] = ('correspondence: seed + boundary molecules (numbers around 16/256/4095, chains with every bond count mod 8 and all orders, 15 neighbours, every '
                         'element x extreme isotopes x random charge/H/radical, corpus sample with renumbering) -> bytes of pack, pack size, raw unpack result and pack_len '
                         'compared with the Coq model by vm_compute; reactions for all role-size triples 0..2 plus larger; non-trivial = more than one atom. '
-                        'search: API round trip compressed/uncompressed, half-float coordinates, reference packs vs lipophilicity.csv through RDKit')
+                        'search: API round trip compressed/uncompressed, pack bytes against an independent re-implementation of the published layout (bit string from the docstring), half-float coordinates, reference packs vs lipophilicity.csv through RDKit; after a correspondence failure the same oracles run on the disagreeing molecules and renumbered variants')
     proved = common.standard_proof_steps(ck, translators=['elements'])
     rng = random.Random(ck.seed)
     try:
@@ -422,6 +622,8 @@ def run(ck):
     timing['generate'] = round(time.time() - t0, 1); t0 = time.time()
     corr(ck, mods['unpack'], mols)
     timing['corr_molecules'] = round(time.time() - t0, 1); t0 = time.time()
+    corr_malformed(ck, mods['unpack'], mols, rng)
+    timing['corr_malformed'] = round(time.time() - t0, 1); t0 = time.time()
     corr_reactions(ck, rng)
     timing['corr_reactions'] = round(time.time() - t0, 1); t0 = time.time()
     corr_f16(ck, mods, rng)
